@@ -328,12 +328,70 @@ def r3_encoding_error_conversion(ctx):
         rs = [x for x in ast.walk(h) if isinstance(x, ast.Raise) and isinstance(x.exc, ast.Call)]
         ok = len(rs) == 1 and any(k.arg == "line_number" and u(k.value) == "row_number" for k in rs[0].exc.keywords)
         ctx.ob(f.where, "the format error carries that row as its line number", ok, "", key="C15-R3|line-number-kw")
+        # which formula applies is decided by the SHAPE of the text that was parsed (a digit matrix has .shape[1]; ragged text has .lengths), not by the
+        # declared type: an int column with a signed value is parsed as ragged text
+        sel = [t for t in ast.walk(h) if isinstance(t, ast.If) and any(isinstance(x, ast.Assign) and u(x.targets[0]) == "row_number" for x in ast.walk(t))]
+        for t in sel:
+            matrix_in_body = any(isinstance(x, ast.Assign) and u(x.targets[0]) == "row_number" and ".shape[1]" in u(x.value) for b in t.body for x in ast.walk(b))
+            tc = sym.canon(t.test)
+            want_t = "isinstance(text, EncodedArray)" if matrix_in_body else "isinstance(text, EncodedRaggedArray)"
+            alt_t = "not(isinstance(text, EncodedRaggedArray))" if matrix_in_body else "not(isinstance(text, EncodedArray))"
+            if tc in (want_t, alt_t):
+                okt = True
+            elif "text" not in {x.id for x in ast.walk(t.test) if isinstance(x, ast.Name)}:
+                okt = False          # decided by something other than the parsed text (e.g. the declared type)
+            else:
+                raise Unrecognised(f"{f.where}: the row formula is selected by an unknown test on the text: {u(t.test)}")
+            ctx.ob(f.where, "the row formula (matrix / ragged) is selected by the shape of the parsed text itself", okt, u(t.test), key="C15-R3|formula-selector")
     enc = ix.func("bionumpy.encodings.alphabet_encoding", "AlphabetEncoding._encode")
     env = local_env(enc.node)
     ok = "offset" in env and sym.canon(env["offset"]) == "np.flatnonzero((255)==(ret.ravel()))[0]"
     rs = [x for x in body_walk(enc.node) if isinstance(x, ast.Raise) and isinstance(x.exc, ast.Call)]
     ok = ok and len(rs) == 1 and len(rs[0].exc.args) == 2 and u(rs[0].exc.args[1]) == "offset"
     ctx.ob(enc.where, "the encoding error reports the flat offset of the first invalid character", ok, "", key="C15-R3|error-offset")
+
+
+def r7_start_lines_and_plain_reports(ctx):
+    """(a) the line offset handed to a lazily read table is the number of lines read BEFORE its chunk: a value captured before the read call, never the live
+    counter read afterwards (which already includes the chunk's own lines once the reader updates it); (b) reporting a marker violation does not decode file
+    bytes as text: a byte >= 128 in the offending line would raise UnicodeDecodeError instead of the format error with its line number."""
+    ix = ctx.index
+    R = "bionumpy.io.npdataclassreader"
+    n = 0
+    for qn in ("NpDataclassReader.read", "NpDataclassReader.read_chunk"):
+        f = ix.func(R, qn)
+        g = CFG(f.node)
+        reads = [x for x in g.nodes if x.kind == "stmt" and any(isinstance(c, ast.Call) and u(c.func) in ("self._reader.read", "self._reader.read_chunk") for c in walk_local(x.ast))]
+        ctx.need(len(reads) >= 1, f"{qn}: raw read call not found")
+        for c in func_calls(f.node):
+            if u(c.func) != "ItemGetter":
+                continue
+            n += 1
+            third = c.args[2] if len(c.args) > 2 else next((k.value for k in c.keywords if k.arg in ("start_line", "_start_line")), None)
+            if third is None:
+                ok, detail = True, "no offset (0)"
+            elif isinstance(third, ast.Name):
+                defs = [x for x in g.nodes if x.kind == "stmt" and isinstance(x.ast, ast.Assign) and u(x.ast.targets[0]) == third.id]
+                ok = len(defs) == 1 and all(g.dominates(defs[0], r) and defs[0] is not r for r in reads) and sym.canon(defs[0].ast.value) == "self._reader.n_lines_read"
+                detail = u(defs[0].ast) if defs else "undefined"
+            elif "n_lines_read" in u(third):
+                ok, detail = False, f"live counter {u(third)} read after the chunk was read"
+            else:
+                raise Unrecognised(f"{f.where}: start line of the lazy table has an unknown form: {u(third)}")
+            ctx.ob(f.where, f"{qn}: the lazy table's line offset is the line count captured before its chunk was read", ok, detail, key=f"C15-R7|start-line|{qn}")
+    ctx.floor("lazy tables built by the reader", n, 2)
+    m = 0
+    for mod in ("bionumpy.io.one_line_buffer", "bionumpy.io.fastq_buffer", "bionumpy.io.delimited_buffers", "bionumpy.io.multiline_buffer"):
+        for qn, fi in ix.module(mod).functions.items():
+            if not qn.endswith("._validate"):
+                continue
+            m += 1
+            dec = [c for c in func_calls(fi.node) if isinstance(c.func, ast.Attribute) and c.func.attr in ("to_string", "decode", "tostring") or u(c.func) in ("str", "bytes.decode")
+                   and c.args and "data" in u(c.args[0])]
+            dec = [c for c in dec if "data" in u(c)]
+            ctx.ob(fi.where, "a violation is reported without decoding bytes of the file as text (non-ASCII bytes in the offending line must still give the format error)", not dec,
+                   "; ".join(u(c)[:80] for c in dec), key=f"C15-R7|plain-report|{qn}")
+    ctx.floor("format validators examined", m, 3)
 
 
 def r4_alphabet(ctx):
@@ -355,5 +413,6 @@ RULES = [
     ("C15-R4", r4_alphabet),
     ("C15-R5", _column_count),
     ("C15-R6", _missing_shortcut),
+    ("C15-R7", r7_start_lines_and_plain_reports),
     ("C15-T1", _through_time),
 ]
